@@ -398,6 +398,38 @@ pub fn run(tier: Tier) -> i32 {
         rep.count("misplaced_fallback_declarations", n_misplaced);
     }
 
+    // ---- chains that rename the count and pass an unrelated `count` on top -------------------------------------------
+    // r: a range on `count`; b renames it to `n` and has a plain variable of its own called `count`; the c_* keys pass
+    // arguments to b: only the variable of that name is replaced - the range keeps following `n`
+    let mut chain_projects: Vec<Project> = vec![];
+    for ty in [Some(NumTy::U8), None, Some(NumTy::F32), Some(NumTy::I64)] {
+        let tyv = ty.unwrap_or(NumTy::I32);
+        let lit = |x: u64| if tyv.is_float() { FkArg::Float(format!("{x}.0")) } else { FkArg::UInt(x) };
+        let r = decl(ty, "r", &[vec![num_spec(tyv, 0)], vec![CountSpec::Str(if tyv.is_float() { "1.0..=2.0".into() } else { "1..=2".into() })]], Fb::Implicit, 0);
+        let rename = |to: &str| fk_args("r", vec![("count", FkArg::Str(vec![var(to)]))]);
+        let e: Vec<(String, Val)> = vec![
+            ("r".into(), Val::Range(r)),
+            ("b".into(), s(vec![var("n"), text(" of "), var("count"), text(": "), rename("n")])),
+            ("c_lit".into(), s(vec![fk_args("b", vec![("count", FkArg::UInt(10))])])),
+            ("c_lit0".into(), s(vec![fk_args("b", vec![("count", FkArg::UInt(0))])])),
+            ("c_str".into(), s(vec![fk_args("b", vec![("count", FkArg::Str(vec![text("ten")]))])])),
+            ("c_var".into(), s(vec![fk_args("b", vec![("count", FkArg::Str(vec![var("m")]))])])),
+            ("c_both".into(), s(vec![fk_args("b", vec![("count", FkArg::Str(vec![var("m")])), ("n", FkArg::Str(vec![var("k")]))])])),
+            ("c_n_lit".into(), s(vec![fk_args("b", vec![("n", lit(1))])])),
+            ("c_n_lit_count".into(), s(vec![fk_args("b", vec![("n", lit(2)), ("count", FkArg::Str(vec![text("X")]))])])),
+            ("d".into(), s(vec![text("d: "), fk_args("c_var", vec![("m", FkArg::Str(vec![var("z")]))])])),
+            ("d_n".into(), s(vec![text("d: "), fk_args("c_var", vec![("n", FkArg::Str(vec![var("z")]))])])),
+            // the same with the names the other way round: the range keeps `count`, b's own variable is `n`
+            ("b2".into(), s(vec![var("n"), text(" / "), fk("r")])),
+            ("c2".into(), s(vec![fk_args("b2", vec![("n", lit(0))])])),
+            ("c2v".into(), s(vec![fk_args("b2", vec![("n", FkArg::Str(vec![var("count")]))])])),
+        ];
+        let mut p = Project::new(Config::simple("en", &["en"]));
+        p.set_file(None, "en", e);
+        chain_projects.push(p);
+    }
+    rep.count("renamed_count_chain_projects", chain_projects.len() as u64);
+
     // ---- run ---------------------------------------------------------------------------------------
     let n_packed = jobs.len();
     par_for(jobs.len(), |w, i| {
@@ -409,6 +441,13 @@ pub fn run(tier: Tier) -> i32 {
         }
         rep.eval(j.n_cases);
         rep.nontriv(j.n_decls);
+    });
+    par_for(chain_projects.len(), |w, i| {
+        let (e, _) = check_project(&rep, "C04", "renamed-count-chain", &chain_projects[i], &scratch.worker(w), &keys_total);
+        if e != Expect::Accept {
+            vmodel::report::machinery_fail(&format!("C04 renamed-count chain project not acceptable to the model: {e:?}"));
+        }
+        rep.eval(14);
     });
     let n_rej = Mutex::new((0u64, 0u64, 0u64));
     par_for(singles.len(), |w, i| {
@@ -439,7 +478,7 @@ pub fn run(tier: Tier) -> i32 {
         rep.sample(json!({"single": p.describe()}));
     }
     let mut cov = serde_json::Map::new();
-    cov.insert("rule".into(), json!("i8/u8: every 1-branch declaration over the spec alphabet (exact number/string, a..b, a..=b, ..b, ..=b, a.., alternatives with |, list alternatives, whitespace) x 4 fallback forms x 3 syntaxes, every ordered 2-branch pair (thorough: 3-branch over a reduced alphabet); each accepted declaration is (1) evaluated from the parsed Range<T> structures for ALL 256 counts, (2) selected at parse time through one `$t(r,{count:n})` key per covered count (all 256 for 1-branch, boundary neighbourhood for 2/3-branch), (3) `{{ count }}` shown; wider ints (+implicit i32) and floats: same alphabets, counts = every value within +-2 (next_up/next_down for floats) of a bound plus type extremes; declarations with the fallback before the last branch or written twice (implicit and `_` forms, 4 types); declarations the model rejects / leaves open and literal counts no branch contains are judged alone (must be Err, never panic); evaluations = (declaration, count) pairs + single projects; distinct_nontrivial = distinct declarations"));
+    cov.insert("rule".into(), json!("i8/u8: every 1-branch declaration over the spec alphabet (exact number/string, a..b, a..=b, ..b, ..=b, a.., alternatives with |, list alternatives, whitespace) x 4 fallback forms x 3 syntaxes, every ordered 2-branch pair (thorough: 3-branch over a reduced alphabet); each accepted declaration is (1) evaluated from the parsed Range<T> structures for ALL 256 counts, (2) selected at parse time through one `$t(r,{count:n})` key per covered count (all 256 for 1-branch, boundary neighbourhood for 2/3-branch), (3) `{{ count }}` shown; wider ints (+implicit i32) and floats: same alphabets, counts = every value within +-2 (next_up/next_down for floats) of a bound plus type extremes; declarations with the fallback before the last branch or written twice (implicit and `_` forms, 4 types); three- and four-level reference chains over a range (u8, implicit i32, f32, i64) in which the middle key renames the count to `n` and has a plain variable of its own called `count`, and the outer keys pass `count` / `n` / both as literals, text or other variables (only the variable of that name is replaced; the range keeps following its renamed count); declarations the model rejects / leaves open and literal counts no branch contains are judged alone (must be Err, never panic); evaluations = (declaration, count) pairs + single projects; distinct_nontrivial = distinct declarations"));
     cov.insert("exhaustive".into(), json!(true));
     cov.insert("key_locale_comparisons".into(), json!(*keys_total.lock().unwrap()));
     rep.finish(cov, &["Rust's str::parse::<T> and PartialOrd define what bounds mean", "empty or inverted ranges and fallbacks hidden inside count lists may be rejected or accepted (statement silent)"])
